@@ -4,6 +4,7 @@ from harness import tcpgen as G
 RULE = ("packet signatures with windows built as k*d for each candidate divisor d (so every position of the divisor "
         "list is the first hit somewhere, with deliberate collisions), MSS around 100, both IP versions, header "
         "lengths 40..120, peer MSS incl. <12; non-trivial = the model finds a multiplier (value != -1); distinct by input")
+GEN_TIE = True     # the anchored decision functions are also TRANSLATED from /repo's source on every run and proved equal to the model
 ASSUMPTIONS = ["'timestamp present' is read as ts1 != 0 (p0f's and the code's rule)"]
 EXHAUSTIVE = {"mss 95..105 x win in {k*mss, k*(mss-12)} small grid": True}
 
